@@ -19,3 +19,8 @@ pub use crate::stream::verif::{rewrite_timestamp_line, strip_sha_lookup};
 pub use crate::sanity::verif::{freshly_packed, unpushed};
 pub use crate::analysis::verif::{largest_files, top_n};
 pub use crate::detect::verif::{detect_values, draft, looks_binary_blob, normalize_detected_value};
+
+/// `validate_options` of lib.rs as a yes/no answer.
+pub fn validate_options_ok(opts: &crate::opts::Options) -> bool {
+    crate::validate_options(opts).is_ok()
+}
